@@ -40,16 +40,17 @@ func (p *NamespaceEscalation) Check(
 
 	// All objects need to be namespace-scoped and either have a namespace equal
 	// to their owner or empty so it can be defaulted.
-	if len(obj.GetNamespace()) > 0 {
-		if obj.GetNamespace() != owner.GetNamespace() {
-			violations = append(violations, Violation{
-				Position: "Object " + obj.GetName(),
-				Error:    "Must stay within the same namespace.",
-			})
-		}
+	if len(obj.GetNamespace()) > 0 && obj.GetNamespace() != owner.GetNamespace() {
+		violations = append(violations, Violation{
+			Position: "Object " + obj.GetName(),
+			Error:    "Must stay within the same namespace.",
+		})
 		return
 	}
 
+	// The scope has to be checked even if the object's namespace matches the owner's namespace:
+	// The namespace of objects is defaulted to the owner's namespace before preflight checks run and
+	// the kube-apiserver ignores .metadata.namespace on cluster-scoped APIs.
 	gvk := obj.GetObjectKind().GroupVersionKind()
 	mapping, err := p.restMapper.RESTMapping(gvk.GroupKind(), gvk.Version)
 	if meta.IsNoMatchError(err) {
